@@ -23,7 +23,7 @@ for p in props:
         "engine": engine,
         "level_claimed": {"category": "model_checking", "text": t.get("level", ""), "design_ref": t.get("design_ref", "DESIGN.md §3 " + pid)},
         "level_note": t.get("note", "; ".join(spec.get("assumptions", []))),
-        "technique": t.get("technique", "stateless model checking of the implementation: deviation-bounded exhaustive DFS over scheduler choices under a controlled scheduler" if spec["kind"] == "explore" else "bounded-exhaustive enumeration of a finite input/configuration grammar against a reference model"),
+        "technique": t.get("technique", "stateless model checking of the implementation: deviation-bounded exhaustive search (level by level in the number of deviations) over scheduler choices under a controlled scheduler" if spec["kind"] == "explore" else "bounded-exhaustive enumeration of a finite input/configuration grammar against a reference model"),
     })
 na = [{"property_id": p["id"], "reason": NOT_APPLICABLE.get(p["id"], "check not built yet")} for p in props if p["id"] not in CHECKS]
 m = {
